@@ -130,9 +130,13 @@ def isScalar : Kind → Bool
   | .bool | .string | .duration | .uint => true
   | _ => false
 
-/-- `Resolver.Match` as found: exact name or a sub-domain (case-sensitive; the generator uses
-lower-case names only, so a case-folding `Match` answers the same) -/
-def matchDomain (d : Str) (n : Str) : Bool := n = d || (('.' :: d).isSuffixOf n)
+/-- ASCII case folding, as `Resolver.Match` folds (config/forwarder.go) -/
+def lowerA (s : Str) : Str := s.map fun c => if 'A' ≤ c ∧ c ≤ 'Z' then Char.ofNat (c.toNat + 32) else c
+/-- `Resolver.Match` as found: exact name or a sub-domain, ASCII letters compared without case -/
+def matchDomain (d : Str) (n : Str) : Bool :=
+  let d := lowerA d
+  let n := lowerA n
+  n = d || (('.' :: d).isSuffixOf n)
 
 def obsS (t : Tables) (c : Cfg) : String :=
   let sc := (optTable.filter fun o => isScalar o.kind && o.bound).map fun o => o.name ++ "=" ++ scalarS (c o.nm)
